@@ -487,7 +487,7 @@ class Verdict:
         return rc
 
 
-def merge_harness_records(results, verdict, max_samples=8):
+def merge_harness_records(results, verdict, max_samples=8, only_prefix=None):
     """Common reduction of harness JSONL records: sums 'sum' counters, unions distinct keys,
     forwards violations; returns (counters, distinct_set, samples)."""
     counters, distinct, samples = {}, set(), []
@@ -495,6 +495,8 @@ def merge_harness_records(results, verdict, max_samples=8):
         for rec in r["recs"]:
             t = rec.get("t")
             if t == "viol":
+                if only_prefix and not rec["key"].startswith(only_prefix):
+                    continue
                 verdict.violation(rec["key"], rec.get("what", ""), rec.get("witness"))
             elif t == "d":
                 distinct.update(rec.get("k", []))
@@ -588,7 +590,7 @@ def bt_function(bt):
     return "?"
 
 
-def collect_runs(v, results, case_label=None, judge_report=None):
+def collect_runs(v, results, case_label=None, judge_report=None, only_prefix=None):
     """Fold the records / sanitizer reports / crashes of run_resumable() into the verdict.
     Returns (counters, distinct, samples, stats)."""
     counters, distinct, samples = {}, set(), []
@@ -598,7 +600,7 @@ def collect_runs(v, results, case_label=None, judge_report=None):
         stats["resumed_after_fatal"] += len(outs) - 1
         for r in outs:
             stats["processes"] += 1
-            cnt, dis, smp = merge_harness_records([r], v)
+            cnt, dis, smp = merge_harness_records([r], v, only_prefix=only_prefix)
             for k, val in cnt.items():
                 if isinstance(val, (int, float)):
                     counters[k] = counters.get(k, 0) + val
